@@ -788,11 +788,12 @@ class ExcelCompiler:
                     address, formula=REF_FORMAT.format(excel_data.address),
                     excel=self.excel)
 
-            if excel_data.address.is_range:
+            if str(excel_data.address) in self.cell_map:
+                # unbounded range which is bounded to an existing range or cell
+                new_nodes = []
+            elif excel_data.address.is_range:
                 self.range_todos.append(str(excel_data.address))
                 new_nodes = build_range(excel_data)
-            elif str(excel_data.address) in self.cell_map:
-                new_nodes = []
             else:
                 # unbounded range which is bounded to a single cell
                 new_nodes = build_cell(excel_data)
